@@ -16,6 +16,7 @@ package ecs
 //@ pred maskCard(m Mask) int = popcount(m.bits[0]) + popcount(m.bits[1]) + popcount(m.bits[2]) + popcount(m.bits[3])
 //@ pred validID(i uint8) bool = true
 //@ pred zeroMaskV() Mask = mk(Mask, arr(0, 0, 0, 0))
+//@ pred onlyBit(m Mask, l uint8) bool = m.bits[0] == ite(l / 64 == 0, uint64(1) << (l % 64), 0) && m.bits[1] == ite(l / 64 == 1, uint64(1) << (l % 64), 0) && m.bits[2] == ite(l / 64 == 2, uint64(1) << (l % 64), 0) && m.bits[3] == ite(l / 64 == 3, uint64(1) << (l % 64), 0)
 //@ endif
 //@ if tiny
 //@ pred specBit(m Mask, i uint8) bool = i < 64 && (m.bits >> i) & 1 == 1
@@ -23,6 +24,7 @@ package ecs
 //@ pred maskCard(m Mask) int = popcount(m.bits)
 //@ pred validID(i uint8) bool = i < 64
 //@ pred zeroMaskV() Mask = mk(Mask, 0)
+//@ pred onlyBit(m Mask, l uint8) bool = l < 64 && m.bits == uint64(1) << l
 //@ endif
 
 // Set relations, defined bit by bit (this is the meaning taken from the property statement) ...
@@ -71,6 +73,7 @@ package ecs
 //@   requires validID(bit.id)
 //@   ensures[expanded] forall! i uint8 :: specBit(*b, i) == ite(i == bit.id && validID(i), value, old(specBit(*b, i)))
 //@   ensures[symbolic] forall i uint8 :: {bitU(*b, i)} bitU(*b, i) == ite(i == bit.id && validID(i), value, old(bitU(*b, i)))
+//@   ensures[word] (value && old(maskEmpty(*b)) ==> onlyBit(*b, bit.id)) && (!value && old(onlyBit(*b, bit.id)) ==> maskEmpty(*b))
 //@   modifies b.bits
 
 //@ func Mask.Not(b) (r)
@@ -321,6 +324,7 @@ package ecs
 //@   on_panic lockSame(m)
 //@   ensures lockInv(m)
 //@   ensures specBit(m.locks, l) && !old(specBit(m.locks, l))
+//@   ensures[word] old(maskEmpty(m.locks)) ==> onlyBit(m.locks, l)
 //@   ensures forall! b uint8 :: b != l ==> specBit(m.locks, b) == old(specBit(m.locks, b))
 //@   modifies m.locks.bits, *(&m.bitPool)
 
@@ -333,6 +337,7 @@ package ecs
 //@   on_panic lockSame(m)
 //@   ensures lockInv(m)
 //@   ensures !specBit(m.locks, l)
+//@   ensures[word] old(onlyBit(m.locks, l)) ==> maskEmpty(m.locks)
 //@   ensures forall! b uint8 :: b != l ==> specBit(m.locks, b) == old(specBit(m.locks, b))
 //@   modifies m.locks.bits, *(&m.bitPool)
 
